@@ -212,11 +212,25 @@ def c_side(ctx, rng):
             elif how == 2:
                 d = d + list(rng.bytes(rng.below(400)))
             dg.append(d)
-    for d, o in zip(dg, TI.c_data_rx(dg)):
+    # every accepted length of both layouts (header + 148 / 444 soft bits, with and without the two legacy padding octets) and their neighbours
+    for n_ in (155, 156, 157, 158, 159, 451, 452, 453, 454, 455):
+        for _ in range(3):
+            d = list(rng.bytes(n_))
+            d[0] = rng.below(8)                                    # version 0, any timeslot
+            d[1:5] = list((rng.below(2715648)).to_bytes(4, "big"))
+            dg.append(d)
+    cobs = TI.c_data_rx(dg)
+    for d, o in zip(dg, cobs):
         ctx.evaluations += 1
-        ctx.nontrivial(("c-trxd", o.get("rc"), bool(o.get("called")), len(d) < 8))
+        ctx.nontrivial(("c-trxd", o.get("rc"), bool(o.get("called")), len(d) < 8, len(d) if len(d) in (156, 158, 452, 454) else 0))
         if o.get("crash"):
             ctx.oracle_fail("trx_data_rx_cb stopped by a sanitizer / signal", dict(datagram=d[:40], n=len(d), sanitizer=str(o["crash"])[:600]), key="c14-c-trxd-crash")
+        elif o.get("called") and len(o.get("burst") or []) not in (148, 444):
+            # what is handed to the scheduler must fit its 444-entry burst array (trxcon asserts on anything longer and aborts)
+            ctx.oracle_fail("trx_data_rx_cb hands a burst of %d soft bits to the scheduler (its burst array holds 444; 148 / 444 are the only burst lengths)" % len(o["burst"]),
+                            dict(datagram=d[:12], n=len(d)), key="c14-c-trxd-burst-length", expected=[148, 444], observed=len(o["burst"]))
+    ctx.correspond("trx_data_rx_cb", "TrxIf", list(range(len(dg))), lambda j: TI.m_rx_line(dg[j]), lambda j: TI.rx_wire(cobs[j]),
+                   show=lambda j: dict(n=len(dg[j]), head=dg[j][:8]))
     # TRXC: generated + malformed replies with and without a pending command
     for key, wit in TI.ctrl_malformed_campaign(ctx, 400 if ctx.tier == "quick" else 20000, use_msan=(ctx.tier == "thorough")):
         ctx.oracle_fail("trx_ctrl_read_cb: " + key, wit, key=key)
